@@ -172,6 +172,25 @@ def run_case(ctx, case):
     check_grid(ctx, g, m.faces, m.n_node, width, m.closed, case["order"],
                {"kind": "mesh", "family": case["mesh"]["family"], "mixed": mixed, "closed": bool(m.closed), "extra_width": case["extra_width"] > 0, "layout": layout})
     ctx.observe("layout_" + layout)
+    # grids DERIVED from this one once all its tables exist: non-contiguous face selections (two selected faces may both
+    # touch an unselected one) - judged against the faces the derived grid itself reports
+    if m.n_face >= 4:
+        from .. import core
+
+        rng = np.random.default_rng([m.n_face, m.n_node, case["order"]])
+        picks = {"every_other": np.arange(0, m.n_face, 2), "random_half": np.sort(rng.choice(m.n_face, size=max(2, m.n_face // 2), replace=False)),
+                 "permutation": rng.permutation(m.n_face)}
+        for how, idx in picks.items():
+            try:
+                sub = g.isel(n_face=np.asarray(idx, dtype=int))
+                sfaces = ux.rows(sub.face_node_connectivity.values)
+                swidth = int(np.asarray(sub.face_node_connectivity.values).shape[1])
+            except Exception as e:
+                ctx.check("no_exception", False, {"kind": "derived", "how": how, "exc": core.exc_sig(e)}, {"exc": repr(e), "mesh": case["mesh"]})
+                continue
+            check_grid(ctx, sub, sfaces, int(sub.n_node), swidth, bool(m.closed and how == "permutation"), (case["order"] + 1) % len(ORDERS),
+                       {"kind": "derived", "how": how, "mixed": len({len(f) for f in sfaces}) > 1})
+            ctx.observe("derived_grid_" + how)
     if nontrivial(m.faces, width):
         ctx.mark_nontrivial()
     ctx.observe("meshes")
